@@ -31,7 +31,7 @@ impl Q {
     }
 }
 
-fn reply(q: &Q, ttls: &[Vec<u32>; 3]) -> AMsg {
+fn reply(q: &Q, ttls: &[Vec<u32>; 3], rcode: u16) -> AMsg {
     let mut secs: [Vec<ARec>; 3] = Default::default();
     for s in 0..3 {
         for (i, t) in ttls[s].iter().enumerate() {
@@ -39,7 +39,7 @@ fn reply(q: &Q, ttls: &[Vec<u32>; 3]) -> AMsg {
                                 data: if s == 1 { AData::Single(vec![b"ns".to_vec(), vec![b'a' + i as u8]]) } else { AData::Other(vec![192, 0, 2, i as u8]) } });
         }
     }
-    AMsg { id: 9, qr: true, opcode: 0, aa: false, tc: false, rd: true, ra: true, ad: false, cd: false, rcode: 0,
+    AMsg { id: 9, qr: true, opcode: 0, aa: false, tc: false, rd: true, ra: true, ad: false, cd: false, rcode,
            qname: q.name.clone(), qtype: q.qtype, qclass: 1, secs, edns: None }
 }
 
@@ -82,7 +82,8 @@ async fn run(scen: Vec<Value>, out: &mut Trace, seed: u64) {
                 "ins" => {
                     let v = &vecs[step["vec"].as_u64().unwrap() as usize % vecs.len()];
                     let qp = q.pkt();
-                    let rp = to_pkt(&reply(&q, v));
+                    // the response code of the upstream reply must not matter: any reply lives as long as its records say
+                    let rp = to_pkt(&reply(&q, v, step["rcode"].as_u64().unwrap_or(0) as u16));
                     let r = aguard(cache.insert(&qp, &rp)).await;
                     out.emit(json!({"ev":"ins","k":q.key(),"x":q.exact(),"ttls":ttls_json(v),"t":t_ms,"outcome": if r.is_ok() {"ok"} else {"panic"},
                                     "cdparsed": qp.cd, "doparsed": qp.edns_do}));
